@@ -48,13 +48,19 @@ CHECKS = {
              "and cycle origins up to 2^62 are validated step by step by TLC against TraceTimers.tla (FiredIffBoundary, "
              "NextInFuture, NeverWhenOff, FireSetsIsr; the firmware acknowledging status bits between ticks is an action of the traces; gaps of more than 2^24 periods landing on / next to a boundary are included); Python and Rust sequences are also compared directly. Machine level: whole "
              "machines running with both timers are saved and restored into fresh machines at every script position (the C16 "
-             "campaign) and the firing cadence after the restore is compared with the uninterrupted run (snapshot_cadence). "
+             "campaign) and the firing cadence after the restore is compared with the uninterrupted run (snapshot_cadence); and "
+             "Machine.tla composes the timers with the abstract CPU and interrupt controller - the timers are driven by the machine's own "
+             "cycle counter (instruction cycles, WAIT of many lengths, HALT idle cycles, no ticks inside handlers, nothing while powered "
+             "off) - TLC checks the cadence clauses on the composition for a machine that ticks before the instruction (Python) and for "
+             "one that ticks after it (Rust), and the model's behaviours (exhaustive small + simulate) plus seeded scripts are run on both "
+             "real machines, whose step-by-step recordings are judged by the same clauses (TraceMachineTimers.tla: PhasePreserved, "
+             "FireSetsStatus, FiredOnlyAtBoundary, NoBoundarySkipped, NextInFuture, DueTargetFires, NeverWhenOff). "
              "Unbounded: ind/TimersInd.tla states the one-timer argument over mathematical integers and Apalache discharges it - "
              "'the target is the least unconsumed period boundary' is inductive (base + step, for periods 1, 2, 7, 2048, 512000; "
              "thorough 14 periods up to 2^27) for every cycle count, gap and restored target, and FiredIffBoundary / NextInFuture "
              "follow from it in one step for a symbolic period P > 0; TLC ties the closed form used there to the loop of Timers.tla.",
         design_ref="DESIGN.md section 4 (C13)",
-        note="Trusted: TLC, vh harness (timer.rs), drivers in checks/c13.py. Scheduler-level objects; machine-level ticking (WAIT/HALT) is exercised by the C12 machine traces, snapshot-restore at machine level by the cadence campaign.",
+        note="Trusted: TLC, vh harness (timer.rs), drivers in checks/c13.py. Scheduler-level objects plus whole machines (Machine.tla schedules, machine_harness); snapshot-restore at machine level by the cadence campaign.",
         technique="TLA+ spec (Timers.tla) + TLC exhaustive/simulate + Apalache inductive invariant (unbounded cycles) + trace validation of recorded Python and Rust executions",
         engine="machine",
     ),
@@ -322,6 +328,20 @@ ENGINES = [
     dict(name="regs", path="spec/regs", serves_properties=["C08"], kind_free_text="TLA+ register-file state machine + trace spec"),
 ]
 
+# sentences appended to the descriptions above (strengthenings of the later rounds, kept apart so that the long texts stay readable)
+LATER = {
+    "C01": " The history context also fetches, on the same emulator, a predecessor instruction that ENDS at the address under test while other bytes lie behind it, then rewrites the memory and fetches at that address (sequential fetch after self-modification).",
+    "C05": " Every record is also executed on a LONG-LIVED Python emulator that has just executed, at the same address, a sibling of the instruction (same opcode and prefix, other operand bytes) - patched or reloaded code - and judged by the same clauses (impl tag pyl).",
+    "C06": " Every other state is set up with the flags written once more one by one (FC, FZ after F) - the same architectural state reached through the flag aliases of either register file.",
+    "C07": " The sibling history (the same bytes except the last one, executed at the same address just before) runs before the probe is ever executed on the long-lived core; the hidden-state variant also writes the flags one by one through the FC / FZ aliases.",
+    "C11": " Growth beyond the bus objects: RomLoad.tla (how the device loaders of both machines place ROM / system images of eleven palette lengths from 0 to beyond 1 MiB, which ranges they protect, the reset vector; model-checked placement function, every loader run probed at about 35 boundary addresses incl. 2^24 aliases and judged by TLC) and ImemRegs.tla (the memory-mapped internal registers of six machine variants as a state machine: keyboard, LCC/SCR, USR/SSR, IMR/ISR, E-port, SIO; TLC behaviours replayed, random sequences trace-validated). Only the C11 sentences (ROM immutable, aliases canonical, plain internal RAM reads back) are verdicts there (keys RomLoad:/ImemRegs:); Python/Rust device-register differences are reported as DRIFT.",
+    "C12": " PromptAfterUnmask carries the origin of the owed request (monitors: line at which each status bit last rose, line of the latest delivery): a request raised by a NEW event after the latest delivery (key pressed / other timer expiring while a handler runs; dedicated scripts) must be taken (tag fresh-request), only the stale shape is a recorded finding.",
+    "C15": " On alternate steps the Python controller is observed through its snapshot API (get_snapshot(): registers and VRAM as the state capture and save path see them) instead of the chip objects; both views are judged by the same trace clauses.",
+    "C16": " Ring-full scripts outside handlers (fast main timer, interrupts disabled, three keys held, nothing reads the queue) make the 8-slot event ring run exactly full and overflow on BOTH machines, every step being a snapshot point.",
+    "C17": " Sub-register layout is also compared in the WRITE direction: on two backgrounds where every byte differs, writing A/B/IL/IH/FC/FZ must change exactly its own bits of its own container (IL also clears IH) per the Python table, the Binary Ninja register definitions and the behaviour of both register files.",
+    "C18": " CPU equivalence also runs programs that use HALT / OFF / IR / WAIT, firmware writes to ISR / IMR / KOL and a handler that acknowledges and returns, with host events (ON key, matrix keys, ISR pokes) applied to both machines between up to three budgets. A panic of the Rust core on an in-scope request is reported as violation NoCrash:rs:... (all checks).",
+}
+
 
 def main() -> None:
     props = [json.loads(l)["id"] for l in (VERIF / "properties.jsonl").read_text().splitlines() if l.strip()]
@@ -337,7 +357,7 @@ def main() -> None:
             "evidence_file": f"/verif/evidence/{pid}.json",
             "replay_cmd_template": f"./check {pid} --replay {{path}}",
             "engine": c["engine"],
-            "level_claimed": {"category": c["category"], "text": c["text"], "design_ref": c["design_ref"]},
+            "level_claimed": {"category": c["category"], "text": c["text"] + LATER.get(pid, ""), "design_ref": c["design_ref"]},
             "level_note": c["note"],
             "technique": c["technique"],
         })
